@@ -323,6 +323,17 @@ ExpectedRes(s, d, n) ==
       ELSE IF V # {} THEN { x.res : x \in V }
       ELSE {"tmpl"}
 
+\* the setting the replica-set sync applies to a node: the FIRST valid one, in list order (s.settings is sorted by namespace/name as
+\* the API server lists them), that selects the node.  More than one valid setting can select a node only while statuses are stale
+\* (C18); the comparison then follows the first one, so a pod built from another valid setting is rightly replaced.
+AppliedRes(s, d, n) ==
+    LET nd == NodeOf(s, n)
+        I  == { i \in DOMAIN s.settings : s.settings[i].ns = d.ns /\ s.settings[i].ref = d.name /\ s.settings[i].status = "valid"
+                                           /\ SetMatches(s, s.settings[i], n) }
+    IN IF nd.override \in {"r1", "r2", "r3"} THEN {nd.override}
+       ELSE IF I = {} THEN {"tmpl"}
+       ELSE { s.settings[CHOOSE i \in I : \A j \in I : i <= j].res }
+
 C10_Step(s, e) ==
     IsERS(s, e) =>
       LET r == RSOf(s, e.rs)  d == EDSOf(s, r.owner)  role == Role(d, r) IN
@@ -342,7 +353,7 @@ C10_Step(s, e) ==
         \* stability: a pod that is up to date for unchanged inputs is never replaced
         /\ \A w \in UpdDeletes(s, e, d, r, role) :
              LET p == PodOf(s, w.id) IN
-               (role \in {"active", "canary"} /\ p.hash = r.tmpl /\ p.nodeHash = "ok" /\ p.res \in ExpectedRes(s, d, p.node)) =>
+               (role \in {"active", "canary"} /\ p.hash = r.tmpl /\ p.nodeHash = "ok" /\ p.res \in AppliedRes(s, d, p.node)) =>
                   \/ ~NT(<<"C10", "spurious">>)
                   \/ Masked("F-ann-vs-setting", "C10", NodeOf(s, p.node).override \in {"r1", "r2", "r3"} /\ ValidSettingFor(s, d, p.node) # {})
 
